@@ -71,34 +71,25 @@ func c02(a *vlib.Args) {
 	next := func() bool { idx++; return a.Mine(idx) }
 	nontrivial := int64(0)
 
-	// (a) ALL byte strings of length 0..2 (quick) / 0..3 (thorough)
-	maxLen := 2
-	if a.Thorough() {
-		maxLen = 3
-	}
-	buf := make([]byte, 0, 4)
-	var rec func(n int)
-	rec = func(n int) {
+	// order: the cheap explicit families first, the large exhaustive spaces last (a time budget then cuts the tail)
+	// (c) explicit table corruptions
+	for _, in := range tableCorruptions() {
 		if next() {
-			c.try(buf, "exhaustive short input")
-			if len(buf) > 0 {
-				nontrivial++
-			}
-			if idx%9973 == 1 {
-				r.Sample(6, map[string]string{"input": vlib.Hex(buf), "origin": "all byte strings"})
-			}
-		}
-		if n == maxLen {
-			return
-		}
-		for v := 0; v < 256; v++ {
-			buf = append(buf, byte(v))
-			rec(n + 1)
-			buf = buf[:len(buf)-1]
+			c.try(in, "table corruption")
+			nontrivial++
 		}
 	}
-	rec(0)
-	exhaustiveShort := idx
+
+	// (d) size-field arithmetic boundaries: declared sizes around 2^31, 2^32 and 2^32-(the other size), every width
+	nArith := 0
+	for _, in := range sizeArithmetic() {
+		if next() {
+			c.try(in, "size-field arithmetic boundary")
+			nontrivial++
+			nArith++
+		}
+	}
+	r.Bounds["size_arithmetic_inputs"] = nArith
 
 	// (b) structure-aware mutation of every small valid encoding
 	mutNodes := 2
@@ -182,24 +173,35 @@ func c02(a *vlib.Args) {
 		}
 	})
 
-	// (c) explicit table corruptions
-	for _, in := range tableCorruptions() {
+	// (a) ALL byte strings of length 0..2 (quick) / 0..3 (thorough)
+	maxLen := 2
+	if a.Thorough() {
+		maxLen = 3
+	}
+	buf := make([]byte, 0, 4)
+	var rec func(n int)
+	rec = func(n int) {
 		if next() {
-			c.try(in, "table corruption")
-			nontrivial++
+			c.try(buf, "exhaustive short input")
+			if len(buf) > 0 {
+				nontrivial++
+			}
+			if idx%9973 == 1 {
+				r.Sample(6, map[string]string{"input": vlib.Hex(buf), "origin": "all byte strings"})
+			}
+		}
+		if n == maxLen {
+			return
+		}
+		for v := 0; v < 256; v++ {
+			buf = append(buf, byte(v))
+			rec(n + 1)
+			buf = buf[:len(buf)-1]
 		}
 	}
-
-	// (d) size-field arithmetic boundaries: declared sizes around 2^31, 2^32 and 2^32-(the other size), every width
-	nArith := 0
-	for _, in := range sizeArithmetic() {
-		if next() {
-			c.try(in, "size-field arithmetic boundary")
-			nontrivial++
-			nArith++
-		}
-	}
-	r.Bounds["size_arithmetic_inputs"] = nArith
+	idxBeforeA := idx
+	rec(0)
+	exhaustiveShort := idx - idxBeforeA
 
 	r.Distinct = nontrivial
 	r.Bounds["short_inputs_space"] = exhaustiveShort
